@@ -840,7 +840,147 @@ def run_sources(ctx, case):
     ctx.case(case, edited, labels=["sources", case["source"], case["how"], "edited" if edited else "not-editable"])
 
 
+def enum_elsewhere(tier):
+    """what was done to OTHER instances earlier in the process (adds and removals, default and explicit channels) has no influence on what a
+    block made afterwards contains and encodes: the same construction gives the same bytes as in a process where nothing happened before"""
+    for t in ("emg", "platCal", "platData", "data3D", "force3D", "events", "optical"):
+        for history in ("remove-first", "remove-last", "remove-all", "add-explicit-high", "remove-then-add", "assign-empty"):
+            for origin in ("constructed", "decoded"):
+                yield {"t": t, "history": history, "origin": origin}
+
+
+def _fill_default(t, b, k):
+    """k items added with default numbering"""
+    from .c16 import make_track
+
+    for i in range(k):
+        if t == "emg":
+            b.addSignal(make_track("emg", N, f"s{i}", i))
+        elif t == "platCal":
+            from basictdf.tdfForcePlatformsCalibration import ForcePlatformInfo
+            b.add_platform(ForcePlatformInfo(f"p{i}", np.array([1.0, 2.0], dtype="<f4"), np.full((4, 3), float(i), dtype="<f4")))
+        elif t == "platData":
+            from basictdf.tdfForcePlatformsData import ForcePlatformData
+            b.add_platform(ForcePlatformData(np.full((N, 2), float(i), "<f4"), np.full((N, 3), float(i), "<f4"), np.full(N, float(i), "<f4")))
+        elif t in ("data3D", "force3D"):
+            b.add_track(make_track(t, N, f"t{i}", i))
+        elif t == "events":
+            from basictdf.tdfEvents import Event
+            b.events.append(Event(f"e{i}", [float(i)]))
+        else:
+            from basictdf.tdfOpticalSystem import OpticalChannelData
+            b.channels.append(OpticalChannelData(i, "l", "t", f"c{i}", np.array([[0, 0], [10 + i, 20]], dtype="<i4")))
+
+
+def run_elsewhere(ctx, case):
+    from .. import env
+
+    t, history, origin = case["t"], case["history"], case["origin"]
+    fmt = {"platCal": 2, "data2D": 2}.get(t, 1)
+
+    def later_block():
+        b = _bare(t)
+        _fill_default(t, b, 2)
+        if origin == "decoded":
+            b = specs.lib_decode(t, fmt, specs.lib_write(b))[0]
+            _fill_default(t, b, 1)
+        return specs.lib_write(b)
+
+    env.reset_library_state()
+    ok, reference = ctx.must(later_block, f"elsewhere/{t}/reference", f"constructing and filling a {t} block in a fresh module state")
+    if not ok:
+        return
+    env.reset_library_state()
+
+    def earlier():
+        a = _bare(t)
+        _fill_default(t, a, 3)
+        items = [x[1] if isinstance(x, tuple) else x for x in list(a)] if t != "optical" else list(a.channels)
+        if history in ("remove-first", "remove-last", "remove-all", "remove-then-add"):
+            which = {"remove-first": [0], "remove-last": [len(items) - 1], "remove-all": [2, 1, 0], "remove-then-add": [1]}[history]
+            for i in which:
+                if t == "emg":
+                    a.removeSignal(items[i].label)
+                elif t == "platCal":
+                    a.remove_platform(i)
+                elif t == "platData":
+                    a.platforms = [x for j, x in enumerate(items) if j not in which]
+                    break
+                elif t in ("data3D", "force3D"):
+                    a.tracks = [x for j, x in enumerate(items) if j not in which]
+                    break
+                elif t == "events":
+                    del a.events[i]
+                else:
+                    del a.channels[i]
+            if history == "remove-then-add":
+                _fill_default(t, a, 1)
+        elif history == "add-explicit-high" and t in ("emg", "platCal", "platData"):
+            from .c16 import make_track
+
+            if t == "emg":
+                a.addSignal(make_track("emg", N, "high", 9), channel=900)
+        elif history == "assign-empty":
+            if t in ("data3D", "force3D"):
+                a.tracks = []
+            elif t == "platData":
+                a.platforms = []
+        return specs.lib_write(a) if t != "data2D" else b""
+    ctx.must(earlier, f"elsewhere/{t}/earlier-history", f"a history ({history}) on an earlier {t} instance")
+    ok, now = ctx.must(later_block, f"elsewhere/{t}/later", f"constructing and filling a {t} block after a history on another instance")
+    if ok and now != reference:
+        i = next((k for k in range(min(len(now), len(reference))) if now[k] != reference[k]), min(len(now), len(reference)))
+        ctx.fail(f"elsewhere/{t}/later-block-depends-on-earlier-instances", f"{t}: a block made and filled ({origin}, default numbering) after another instance had gone through "
+                                                                            f"'{history}' encodes differently from the same construction in a fresh module state (first "
+                                                                            f"difference at byte {i} of {len(reference)})")
+    ctx.case(case, True, labels=["elsewhere", t, history, origin])
+
+
+def enum_reentrant(tier):
+    for t in ("data3D", "force3D"):
+        for k in (0, 1, 2):
+            for inner in ("assign", "assign-empty", "add"):
+                yield {"t": t, "at": k, "inner": inner}
+
+
+def run_reentrant(ctx, case):
+    """a.tracks = <lazy iterable> whose consumption performs an assignment / an add on ANOTHER block (a pipeline that fills two blocks from one
+    generator): each block ends up with exactly the tracks it was given"""
+    from .c16 import make_track
+
+    t = case["t"]
+    a, b = _bare(t), _bare(t)
+    ta = [make_track(t, N, f"L{i}", i) for i in range(3)]
+    tb = [make_track(t, N, f"R{i}", 10 + i) for i in range(2)]
+
+    def source():
+        for i, x in enumerate(ta):
+            if i == case["at"]:
+                if case["inner"] == "assign":
+                    b.tracks = list(tb)
+                elif case["inner"] == "assign-empty":
+                    b.tracks = []
+                else:
+                    b.add_track(tb[0])
+            yield x
+    ok, _ = ctx.must(lambda: setattr(a, "tracks", source()), f"reentrant/{t}/assign", f"assigning a lazy iterable of valid tracks whose consumption edits another {t} block")
+    if ok:
+        got_a, got_b = [x.label for x in a.tracks], [x.label for x in b.tracks]
+        want_b = {"assign": [x.label for x in tb], "assign-empty": [], "add": [tb[0].label]}[case["inner"]]
+        if got_a != [x.label for x in ta] or got_b != want_b:
+            ctx.fail(f"reentrant/{t}/tracks-mixed-up", f"{t}: a.tracks = <generator that performs '{case['inner']}' on block b before its item {case['at']}>: a holds {got_a} (given "
+                                                       f"{[x.label for x in ta]}), b holds {got_b} (given {want_b})")
+    ctx.case(case, True, labels=["reentrant", t, case["inner"]])
+
+
 SUBS = [make(t) for t in TYPES]
+SUBS.append(Sub("history-on-another-instance", run_elsewhere, kind="enum", enumerate=enum_elsewhere, shards=(2, 4),
+                rule="7 block classes x 6 histories on an EARLIER instance (removals, explicit high channel, remove then add, assignment of an empty list) x the later block "
+                     "constructed or decoded, then filled with default numbering: it encodes exactly as the same construction does in a fresh module state; finite, enumerated",
+                nontrivial_required=False))
+SUBS.append(Sub("reentrant-assignment", run_reentrant, kind="enum", enumerate=enum_reentrant, shards=(1, 2),
+                rule="a.tracks = <lazy iterable> whose consumption assigns to / adds to ANOTHER block (3D data, force) before its item 0 / 1 / 2: each block ends up with exactly the "
+                     "tracks it was given; finite, enumerated", nontrivial_required=False))
 SUBS.append(Sub("one-source-two-constructors", run_sources, kind="enum", enumerate=enum_sources, shards=(2, 4),
                 rule="one sequence object that is not a numpy array (list, tuple, array.array f/d, ctypes float / double array, memoryview cast to f, an object with __array__, "
                      "range, deque) handed to two separate Event constructor calls x both event types x (one event edited in place / a "
